@@ -218,6 +218,19 @@ def run(repo, tier):
     encoders = []
     conditional = []
     raw = False
+    repo_encoders = []
+    for c in comps:
+        # an encoder defined in the repository itself (toidentifier): the key is as injective as that function
+        if isinstance(c, ast.Call) and isinstance(c.func, ast.Name) and c.func.id == "toidentifier" and len(c.args) == 1 and dotted(c.args[0]) == VAL and repo.has(rel, "toidentifier"):
+            repo_encoders.append(c.func.id)
+    if repo_encoders:
+        from rules.C05 import check_toidentifier
+
+        before = len(r.obligations)
+        check_toidentifier(r, repo, "R7.1")
+        if len(r.obligations) == before:
+            raise AnalysisError("constant key uses toidentifier but its injectivity obligations were not generated")
+        encoders += repo_encoders
     for c in comps:
         if isinstance(c, ast.Name) and c.id == VAL:
             raw = True
